@@ -32,8 +32,8 @@ import (
 func init() {
 	core.Register(&core.Prop{
 		ID: "C17",
-		Rule: "E1+E2 bounded-exhaustive: (a) every universe of the generator in gen.go (registry: a@v0 in 1-3 versions incl. a prerelease, a@v1, overlapping module a/p@v0, b@v0 in 1-2 versions each importing/requiring nothing, a or c at either version, c@v0 in 2 versions; main module importing <=2 of {a, b, c, a/p, a@v1, b/q, missing}; initial module file in {empty, lowest versions, superfluous entry, both}), deduplicated by the part of the registry reachable by name, x rearrangements {reverse files, reverse imports, split, merge, reverse deps, reverse registry listing}; " +
-			"(b) every schedule with <=2 deviations of Tidy and of LoadPackages on flag-propagation universes with 2 and 3 queue workers, registry calls being scheduling points; (c) every module file value of the generator in modfile.go through Format/Parse and every single edit of the formatted text. " +
+		Rule: "E1+E2 bounded-exhaustive: (a) every universe of the generator in gen.go (registry: a@v0 in 1-3 versions incl. a prerelease, a@v1, overlapping module a/p@v0, b@v0 in 1-2 versions each importing/requiring nothing, a or c at either version, c@v0 in 2 versions; main module importing <=2 of {a, b, c, a/p, a@v1, b/q, missing}; initial module file in {empty, lowest versions, superfluous entry, both}), deduplicated by the part of the registry reachable by name, x rearrangements {reverse files, reverse imports, split, merge, reverse deps, reverse registry listing}; the main module file also carries description / source / custom fields, which the file tidy writes back must still have; " +
+			"(b) every schedule with <=2 deviations of Tidy and of LoadPackages on flag-propagation universes with 2 and 3 queue workers, registry calls being scheduling points; (c) every module file value of the generator in modfile.go (incl. description and an empty `deps: {}`) through Format/Parse and every single edit of the formatted text. " +
 			"Non-trivial = universes where tidy changes the module file and a version is selected through a dependency's requirement, or the default major version mechanism is used.",
 		Assumptions: []string{
 			"registry modules' own module files list what their packages import (they are tidy) except where the generator says otherwise",
